@@ -295,3 +295,19 @@ Example ex_prune_only_child :
   trace_of (run (exec true OPrune8 []) G13) = [3] /\
   with_children G13 2 = [2; 3] /\ marked G13 3 = true.
 Proof. vm_compute. repeat split; reflexivity. Qed.
+
+(* G14: Facility node 1 (marked) with service 2 and port 3, the port connected to service port 5 of service 6 over link
+   4.  Topology.nodes leaves Facility nodes out: prune before proposed_fixes/C08-9 does not visit node 1 and deletes
+   nothing; afterwards it removes the facility with what it owns and the peering artefacts (link 4, service port 5),
+   and service 6 stays. *)
+Definition G14 : graph := mkGraph
+  [ mkNode 1 CNode 2 1 true 1; mkNode 2 CNS 12 2 false 1; mkNode 3 CCP 11 3 false 1; mkNode 4 CLink 14 4 false 1;
+    mkNode 5 CCP 1 5 false 1; mkNode 6 CNS 13 6 false 1 ]
+  [ mkEdge 1 2 RHas; mkEdge 2 3 RConnects; mkEdge 3 4 RConnects; mkEdge 4 5 RConnects; mkEdge 5 6 RConnects ].
+
+Example ex_prune_facility :
+  trace_of (run (exec true OPrune8 []) G14) = [] /\
+  ok_of (run (exec true OPrune9 []) G14) = true /\
+  trace_of (run (exec true OPrune9 []) G14) = [1; 2; 3; 4; 5] /\
+  prune_nodes G14 = [] /\ all_of_class G14 CNode = [1] /\ type_of G14 1 = T_Facility /\ marked G14 1 = true.
+Proof. vm_compute. repeat split; reflexivity. Qed.
